@@ -44,6 +44,10 @@ def _has_literal_repr(value):
     return False
 
 
+class _SandboxBuiltins(dict):
+    """ The builtins namespace that student code runs with. """
+
+
 class Sandbox:
     """
     Args:
@@ -829,12 +833,14 @@ class Sandbox:
         Returns:
 
         """
-        # Keep the same namespace object: functions the student already defined hold on to it
+        # Keep the same namespace object: functions the student already defined hold on to it.
+        # Only a namespace made here is reused, never a dictionary that came in with the data
+        # (for globals that were used with exec() that is the interpreter's own builtins).
         namespace = data.get('__builtins__')
-        if isinstance(namespace, dict):
+        if type(namespace) is _SandboxBuiltins:
             namespace.clear()
         else:
-            namespace = data['__builtins__'] = {}
+            namespace = data['__builtins__'] = _SandboxBuiltins()
         for name, value in mocked._default_builtins.items():
             namespace[name] = value
 
